@@ -61,6 +61,16 @@ def gen_scripts(ck, rng, quick):
                     elif len(m) > A.hdr_len(cfg):
                         m[rng.range(A.hdr_len(cfg), len(m) - 1)] = rng.below(256)
                     cases.append(("dec", m, idx_set(m[1] & 0x7F)))
+            if t.var:
+                # variable-length element: every announced length next to the 8-bit boundaries, with fewer / exactly / more octets
+                # present than announced (a size computed in 8 bits wraps at 256: announced 250..255 with 0..6 octets present)
+                h = A.ref_header(cfg, t.tid, False, 1, 13, 0, 1, 0, 0)
+                for los in [0, 1, 2, 5, 100, 200, 238, 239, 240, 241] + list(range(244, 256)):
+                    for n in sorted({0, 1, 2, 3, 4, 5, 6, 7, (cfg[2] + 4 + los) % 256, max(los - 1, 0), los, los + 1}):
+                        if n > 245 or n < 0:
+                            continue
+                        m = h + A.le(rng.below(A.max_ioa(cfg)), cfg[2]) + list(rng.bytes(3)) + [los] + list(rng.bytes(n))
+                        cases.append(("dec", m, [0, 1]))
             for kind, m, idxs in cases:
                 lines.append("%s %s %s" % (kind, bytes(m).hex() or "-", ",".join(map(str, idxs))))
             sid = "t%d-%d%d%d" % ((tid,) + cfg)
